@@ -164,7 +164,14 @@ func Unroll(items []Item, cfg Config) ([]Item, error) {
 		for _, it := range items {
 			switch it.Kind {
 			case KFor:
-				ts, err := Subst(it.Expr, equ, func(s string) (int64, bool) { v, ok := env[s]; return v, ok })
+				consts := map[string]int64{"CORESIZE": cfg.CoreSize, "MAXLENGTH": cfg.Length, "MAXPROCESSES": cfg.Processes, "MINDISTANCE": cfg.Distance}
+				ts, err := Subst(it.Expr, equ, func(s string) (int64, bool) {
+					if v, ok := env[s]; ok {
+						return v, true
+					}
+					v, ok := consts[s]
+					return v, ok
+				})
 				if err != nil {
 					return nil, err
 				}
